@@ -246,8 +246,8 @@ fn gen_case(rng: &mut Rng, idx: usize) -> Case {
         2 => (false, true),
         _ => (false, false),
     };
-    if sys_null && env[0].is_none() && rng.chance(1, 2) {
-        // give the default data directory a dictionary pair
+    if (sys_null && env[0].is_none() && rng.chance(1, 2)) || rng.chance(1, 5) {
+        // give the default data directory a dictionary pair (also when an explicit syspath is passed: it must not be read then)
         let dd = if let Some(u) = &env[1] { u.trim_start_matches("/R/").to_string() } else if nodes.contains_key("H/.chewing") { "H/.chewing".into() } else if env[2].is_some() { "X/chewing".into() } else { "H/.local/share/chewing".into() };
         let mut acc = String::new();
         for part in dd.split('/') {
@@ -259,6 +259,10 @@ fn gen_case(rng: &mut Rng, idx: usize) -> Case {
         }
         put_trie(&mut nodes, rng, format!("{}/word.dat", dd), 90);
         put_trie(&mut nodes, rng, format!("{}/tsi.dat", dd), 90);
+        if rng.chance(1, 2) {
+            nodes.insert(format!("{}/dictionary.d", dd), Node::Dir);
+            put_trie(&mut nodes, rng, format!("{}/dictionary.d/h.dat", dd), 90);
+        }
     }
     let _ = idx;
     Case { nodes, cwd: "W".into(), sp, sys_null, sys_not_utf8, user, user_kind, env, tries }
